@@ -165,6 +165,82 @@ def job_words(a):
     return [dict(name="wordchunk", status="x", strength="aux", backend="truth-table", secs=time.time() - t0, count=n, length=length, fail=None)]
 
 
+# ---- loop-invariant cut of __exps_of_section: the per-gate step from an ARBITRARY state (all section lengths) -------------
+
+def _loop_line(fn, iter_name):
+    """source line of `for ... in <iter_name>` inside fn (re-derived from the live source on every run)"""
+    import ast
+    import inspect
+    import textwrap
+    lines, start = inspect.getsourcelines(fn)
+    tree = ast.parse(textwrap.dedent("".join(lines)))
+    ast.increment_lineno(tree, start - 1)
+    for n in ast.walk(tree):
+        if isinstance(n, ast.For) and isinstance(n.iter, ast.Name) and n.iter.id == iter_name:
+            return n.lineno
+    raise RuntimeError(f"no `for ... in {iter_name}` in {fn.__qualname__}")
+
+
+def job_step(a):
+    """INVARIANT of the loop of Decompiler.__exps_of_section: for every qubit q, exps.get(q, q) denotes the current value of q as a function of
+    the entry values.  STEP obligation: from an arbitrary state satisfying it (havocked: the entries of an arbitrary subset H of the qubits are
+    opaque formulas E_q, the others are absent), one iteration with gate g leaves a state that denotes the values after g.  Together with the
+    empty initial state this covers sections of every length."""
+    import itertools as it
+    import z3
+    from sympy import Symbol
+    from qlasskit.decompiler import Decompiler
+    from qlasskit.qcircuit import QCircuit
+    from .. import pyvc
+    kind, ws, nq = a
+    t0 = time.time()
+    fn = getattr(Decompiler, "_Decompiler__exps_of_section")
+    line = _loop_line(fn, "section")
+    name = f"C11.exps_of_section.loop-step[{kind}{list(ws)} over {nq} qubits, every havocked subset]"
+    gate = mk_gate(kind, len(ws) - 1)
+    qc = QCircuit(nq)
+    names = [f"q{i}" for i in range(nq)]
+    n_ok = 0
+    for H in it.chain.from_iterable(it.combinations(range(nq), r) for r in range(nq + 1)):
+        eng = pyvc.Engine()
+        eng.opaque_symbols = False          # dictionary keys are real sympy Symbols
+
+        def ctl(vc, iterable, fl, H=H):
+            exps = fl["exps"]
+            for q in H:
+                exps[Symbol(names[q])] = pyvc.SymExpr(z3.Bool(f"E_{q}"), leaf=True)
+
+            def gen():
+                yield (gate, list(ws), None)
+                raise pyvc.LoopCut(dict(exps))
+            return gen()
+        eng.loop_controllers[line] = ctl
+        try:
+            paths = eng.explore(lambda vc: (fn, [Decompiler(), qc, [("placeholder", [0], None)]], {}))
+        except pyvc.Unsupported as ex:
+            return [res(name, common.UNDECIDED, strength="proved-class", backend="pyvc", detail=f"Unsupported: {ex}")]
+        if len(paths) != 1 or paths[0].kind != "loopcut":
+            return [res(name, REFUTED, strength="proved-class", backend="pyvc", replayed=False,
+                        detail=f"the loop did not run exactly one iteration: {[(p.kind, str(p.value)[:100]) for p in paths]}")]
+        after = {k.name: v for k, v in paths[0].value.items()}
+        before = [z3.Bool(f"E_{q}") if q in H else z3.Bool(names[q]) for q in range(nq)]
+        exp = list(before)
+        if kind == "X":
+            exp[ws[0]] = z3.Not(before[ws[0]])
+        else:
+            exp[ws[-1]] = z3.Xor(before[ws[-1]], z3.And(*[before[w] for w in ws[:-1]]))
+        for q in range(nq):
+            got = pyvc.den(after[names[q]]) if names[q] in after else z3.Bool(names[q])
+            if names[q] not in after and q in H:
+                return [res(name, REFUTED, strength="proved-class", backend="pyvc", detail=f"entry of q{q} disappeared")]
+            st, model, secs, backend = pyvc.solve([], got == exp[q], 10000)
+            if st != PROVED:
+                return [res(name, REFUTED if st == REFUTED else common.UNDECIDED, strength="proved-class", backend=backend, replayed=False,
+                            solver_output=str(model)[:500], detail=f"after {kind}{list(ws)} from a state with entries for {list(H)}: the entry of q{q} does not denote its value")]
+        n_ok += 1
+    return [res(name, PROVED, strength="proved-class", backend="z3", secs=time.time() - t0, havocked_states=n_ok)]
+
+
 def _dispatch(j):
     f, a = j
     return f(a)
@@ -185,6 +261,14 @@ def run(tier, only=None):
         step = max(500, total // 32)
         for lo in range(0, total, step):
             jobs.append((job_words, (L, lo, lo + step)))
+    # proved-class: the loop step from an arbitrary state, per gate kind and wire pattern
+    import itertools as _it
+    for kind, nctl in (("X", 0), ("CX", 1), ("CCX", 2), ("MCX", 1), ("MCX", 2), ("MCX", 3), ("MCX", 4)):
+        nq = max(2, nctl + 1 + (1 if nctl < 3 else 0))
+        for ws in _it.permutations(range(nq), nctl + 1):
+            if kind == "MCX" and nctl >= 3 and ws != tuple(sorted(ws)) and ws != tuple(sorted(ws, reverse=True)):
+                continue
+            jobs.append((job_step, (kind, ws, nq)))
     rs = run_pool(_dispatch, jobs)
     agg = {}
     for r in rs:
@@ -209,6 +293,8 @@ def run(tier, only=None):
     rep.extra.update(bounded=dict(family="all gate sequences over X/CX/CCX/MCX(2-3 controls)/barrier with every wire choice; all kind-words over {X,CX,barrier,H,S,swap}",
                                   bound="length <= 3 over 3 qubits, <= 2 over 4 qubits (thorough: 4 / 3); kind-words of length <= 6 (thorough 7)", all_values=True),
                      instances=sum(v["count"] for v in agg.values()))
+    rep.extra["loop_invariant"] = ("Decompiler.__exps_of_section: invariant 'exps.get(q, q) denotes the current value of q'; INIT trivial (empty dict), STEP discharged by pyvc/z3 per gate kind "
+                                   "and wire pattern from an arbitrary havocked state (proved-class, all section lengths); EXIT (filter of identity entries) covered by the bounded family")
     rep.extra["evaluations"] = sum(v["count"] for v in agg.values())
     rep.extra["distinct_nontrivial"] = sum(v["count"] for v in agg.values())
     rep.assumptions = ["A8 standard meaning of X/CX/CCX/MCX", "gates.I is listed in ZB_GATES but has no case in __exps_of_section (raises): I is outside the gate set C11 quantifies over - diagnostic, not checked",
